@@ -32,6 +32,8 @@ pub struct ScriptedFile {
     pub script: std::collections::VecDeque<ReadEv>,
     pub seek_pending: bool,
     pub seek_target: Option<u64>,
+    /// when set: the highest file position any read has reached is published here
+    pub pos_probe: Option<std::sync::Arc<std::sync::atomic::AtomicU64>>,
     pub pend_seeks: bool,
     /// when the script runs out: if Some(n) behave as Bytes(n) forever instead of stalling
     pub default_read: Option<usize>,
@@ -46,6 +48,7 @@ impl ScriptedFile {
             script: script.into(),
             seek_pending: false,
             seek_target: None,
+            pos_probe: None,
             pend_seeks: false,
             default_read: None,
             reads: 0,
@@ -78,6 +81,9 @@ impl AsyncRead for ScriptedFile {
                 let k = n.min(buf.remaining()).min(self.data.len() - pos);
                 buf.put_slice(&self.data[pos..pos + k]);
                 self.pos += k as u64;
+                if let Some(p) = &self.pos_probe {
+                    p.fetch_max(self.pos, std::sync::atomic::Ordering::SeqCst);
+                }
                 Poll::Ready(Ok(()))
             }
         }
